@@ -100,5 +100,43 @@ PLANS = {
     ),
 }
 
+
+def variant_runs(engine, q_cases, t_cases):
+    def runs(tier):
+        if tier == "quick":
+            return [R(engine, "asan", q_cases), R(engine, "v3", q_cases)]
+        return [R(engine, "asan", t_cases), R(engine, "rel", t_cases * 2), R(engine, "v3", t_cases * 2)]
+    return runs
+
+
+VARIANT_KINDS = {"range_malformed", "range_too_wide", "pos_below_lo", "first_occurrence_outside", "lower_bound_mismatch"}
+
+PLANS["C08"] = dict(
+    runs=variant_runs("static_comp", 500, 4000),
+    kinds=VARIANT_KINDS,
+    rule="case = one CompressedPGMIndex<K,Eps,EpsRec,Floating> instantiation (EpsRec 0, small, 256 = binary-search routing; "
+         "8..64-bit unsigned keys) x one generated sorted array (families of C01; 1/64 of the cases chunked, n >= 2^15) x the "
+         "full query set of C02; oracle = C01 and C02 clauses with width <= 2*Eps+2 for every query; non-trivial = >= 2 "
+         "distinct keys, (>= 2 segments or a duplicate run) and >= 1 absent query",
+    assumptions=ASSUME_COMMON,
+)
+PLANS["C09"] = dict(
+    runs=variant_runs("static_bucket", 500, 4000),
+    kinds=VARIANT_KINDS | {"below_first_not_empty_at_0", "above_last_not_empty_at_n"},
+    rule="case = one BucketingPGMIndex<K,Eps,TopLevelSize,TopLevelBitSize,Floating> instantiation (power-of-two and other "
+         "table sizes, dynamic and fixed cell widths) x one sorted array (families of C01 plus keys on/around first+i*step "
+         "and spans of the whole type) x the full query set; oracle = C01 and C02 clauses, plus {0,0}/{n,n} outside "
+         "[first,last]; a fixed cell width too small for the segment count is a documented rejection (counted, not judged)",
+    assumptions=ASSUME_COMMON,
+)
+PLANS["C10"] = dict(
+    runs=variant_runs("static_ef", 500, 4000),
+    kinds=VARIANT_KINDS,
+    rule="case = one EliasFanoPGMIndex<K,Eps,Floating> instantiation (16..64-bit keys) x one sorted array (families of C01 "
+         "plus segment-key sets of chosen density so that the Elias-Fano low-bit width varies; the widths seen are counted) "
+         "x the full query set; oracle = C01 and C02 clauses",
+    assumptions=ASSUME_COMMON,
+)
+
 # properties not claimed (filled while the framework is being built; empty once every engine exists)
 NOT_APPLICABLE = {}
